@@ -285,7 +285,7 @@ func l3DecoderCase(c *Ctx, id string, st *trie.SlimTrie, tc *TrieCase, spec *Enc
 	fmt.Fprintf(cw, "EM\n")
 	fmt.Fprintf(iw, "C %s\n", id)
 	DumpView(iw, st)
-	// GetID / Get recomputed by the model FROM THE REAL MESSAGE FIELDS (Msg.mgetid / Msg.mget,
+	// GetID / Get / searchID recomputed by the model FROM THE REAL MESSAGE FIELDS (Msg.mgetid / mget / msearchid,
 	// proved equal to the tree model's answers in MsgProofs.v) against the implementation's own.
 	if tc == nil {
 		return
@@ -294,7 +294,8 @@ func l3DecoderCase(c *Ctx, id string, st *trie.SlimTrie, tc *TrieCase, spec *Enc
 		fmt.Fprintf(cw, "MQ %s\n", hxs(q))
 		s, p := protect(func() string {
 			v, f := st.Get(q)
-			return fmt.Sprintf("%d %s", st.GetID(q), foundStr(spec, v, f))
+			l, e, r := st.VerifSearchID(q)
+			return fmt.Sprintf("%d %s S %d %d %d", st.GetID(q), foundStr(spec, v, f), l, e, r)
 		})
 		if p != "" {
 			s = "PANIC"
